@@ -494,7 +494,7 @@ def report(ctx, sig, what, case):
     ctx.violation(sig, what, case)
 
 
-def judge_cases(ctx, cases, *, corrupt=None, drop_event=None, label="trace"):
+def judge_cases(ctx, cases, *, corrupt=None, drop_event=None, label="trace", coverage=False):
     """Record the traces of `cases` from the real code and let TLC validate them.  Returns the TLC records."""
     batch, infos, idx = [], [], []
     for i, case in enumerate(cases):
@@ -517,7 +517,7 @@ def judge_cases(ctx, cases, *, corrupt=None, drop_event=None, label="trace"):
     if not batch:
         return []
     res = run_tlc(ctx.workdir / label, MODULE, CFG_TRACE, files={"batch.json": batch},
-                  env={"BATCH_FILE": "batch.json", "MODE": "trace"})
+                  env={"BATCH_FILE": "batch.json", "MODE": "trace"}, coverage=coverage)
     ctx.add_tlc(res, "trace: Start / Evaluate / Improve / Converge / Cap over the recorded iterates of the real runs")
     if "InstancesOK" in res.violated:
         raise TLCFailure("instance filter InstancesOK violated by a generated case\n" + (res.traces[0][:2000] if res.traces else ""))
@@ -530,6 +530,14 @@ def judge_cases(ctx, cases, *, corrupt=None, drop_event=None, label="trace"):
         if r is None:
             raise TLCFailure(f"no verdict for trace {k} (the trace machine deadlocked before a terminal phase)")
         flags = set(r["flags"])
+        # per-action counts of the trace machine (vacuity evidence; TLC's own -coverage option exhausts the heap on
+        # the deserialised batch): a trace that ended at event l took 1 Start, l - 1 Improve, and one Evaluate per
+        # event that carries q and v
+        ac = ctx.extra.setdefault("trace_action_counts", {"Start": 0, "Evaluate": 0, "Improve": 0, "Converge": 0, "Cap": 0})
+        ac["Start"] += 1
+        ac["Improve"] += r["l"] - 1
+        ac["Evaluate"] += sum(1 for e in T["ev"][:r["l"]] if e["hq"] == 1)
+        ac["Converge" if r["phase"] == "converged" else "Cap"] += 1
         if "recorder-log-inconsistent" in flags:
             raise TLCFailure(f"trace {k}: the logged logarithms are not consistent with the logged policy (recorder bug)")
         unknown = flags - DRIFT_FLAGS
@@ -541,6 +549,8 @@ def judge_cases(ctx, cases, *, corrupt=None, drop_event=None, label="trace"):
             ctx.count("runs_not_reporting_convergence")
             if not c["check"]:
                 ctx.count("runs_with_check_convergence_off")
+            if not flags and not info["notes"]:
+                ctx.validated += 1          # every logged iterate was explained by Start / Evaluate / Improve
             continue
         ctx.count("runs_reporting_convergence")
         ctx.count(f"converged_{c['iface']}_{c['dtype']}")
@@ -586,7 +596,7 @@ def judge_cases(ctx, cases, *, corrupt=None, drop_event=None, label="trace"):
     return res.records
 
 
-def run_mc(ctx, cases, budget):
+def run_mc(ctx, cases, budget, coverage=False, label="mc"):
     """budget = total number of initial supports ((2^K - 1)^N per instance) explored."""
     seen, batch, starts = set(), [], 0
     for case in cases:
@@ -604,8 +614,8 @@ def run_mc(ctx, cases, budget):
         batch.append(T)
     if not batch:
         return
-    res = run_tlc(ctx.workdir / "mc", MODULE, CFG_MC, files={"batch.json": batch},
-                  env={"BATCH_FILE": "batch.json", "MODE": "mc"})
+    res = run_tlc(ctx.workdir / label, MODULE, CFG_MC, files={"batch.json": batch},
+                  env={"BATCH_FILE": "batch.json", "MODE": "mc"}, coverage=coverage)
     ctx.add_tlc(res, "mc: zero-temperature limit of the loop from every initial support")
     bad = [v for v in res.violated if v in DESIGN_INVS]
     if bad:
@@ -634,7 +644,7 @@ def check_log_tables():
 def run(ctx):
     check_log_tables()
     rng = random.Random(ctx.seed * 7919 + 19)
-    n, nl = (450, 30) if ctx.tier == "quick" else (4000, 250)
+    n, nl = (450, 30) if ctx.tier == "quick" else (8000, 400)
     ctx.rule = ("random (instance, configuration): 2-6 states, 1-4 actions, no absorbing states, rows = compositions of "
                 "PD in {2,3,4,5,10} with zero entries, integer rewards |r| <= 4 in 5 broadcast shapes, gamma in "
                 "{1/10,1/2,3/4,9/10,99/100}, entropy weight in {1/1000..10} as float / int / 1-tensor / per-state vector, "
